@@ -180,21 +180,36 @@ def sync_exported_bn(pit, exported):
     output mask.  Returns the number of BatchNorms synchronised."""
     n = 0
     emods = dict(exported.named_modules())
+    graph = getattr(exported, 'graph', None)
     for name, layer in pit_layers(pit):
         bn = getattr(layer, 'bn', None)
         if bn is None or getattr(layer, 'fold_bn', False):
             continue
-        ebn = emods.get(name + '_exported_bn')
-        if ebn is None:
-            continue
+        # the re-created BatchNorm is found by its position (the BatchNorm module(s) consuming the
+        # exported layer's output in the fx graph), falling back to PLiNIO's naming convention
+        targets = []
+        if graph is not None:
+            for node in graph.nodes:
+                if node.op == 'call_module' and str(node.target) == name:
+                    for u in node.users:
+                        if u.op == 'call_module' and isinstance(
+                                emods.get(str(u.target)), (nn.BatchNorm1d, nn.BatchNorm2d)):
+                            targets.append(emods[str(u.target)])
+        if not targets and emods.get(name + '_exported_bn') is not None:
+            targets = [emods[name + '_exported_bn']]
         mask = layer.features_mask.bool()
-        with torch.no_grad():
-            ebn.running_mean.copy_(bn.running_mean[mask])
-            ebn.running_var.copy_(bn.running_var[mask])
-            if bn.affine:
-                ebn.weight.copy_(bn.weight[mask])
-                ebn.bias.copy_(bn.bias[mask])
-        n += 1
+        done = set()
+        for ebn in targets:
+            if id(ebn) in done:
+                continue
+            done.add(id(ebn))
+            with torch.no_grad():
+                ebn.running_mean.copy_(bn.running_mean[mask])
+                ebn.running_var.copy_(bn.running_var[mask])
+                if bn.affine:
+                    ebn.weight.copy_(bn.weight[mask])
+                    ebn.bias.copy_(bn.bias[mask])
+            n += 1
     return n
 
 
